@@ -1,4 +1,1181 @@
-From Coq Require Import List ZArith NArith Bool Lia.
+(* C05 (part A) — proofs about the commit pipeline / handshake model. *)
+From Coq Require Import List ZArith NArith Bool Lia Arith.
 From TM Require Import C05.Model.
 Import ListNotations.
 Open Scope Z_scope.
+
+Section P.
+Variable A : appsem.
+
+Notation step := (step A).
+Notation do_op := (do_op A).
+Notation run := (run A).
+Notation exec_block := (exec_block A).
+Notation exec_chain := (exec_chain A).
+Notation deliver_all := (deliver_all A).
+Notation ref_state := (ref_state A).
+
+(* ---------------------------------------------------------------- lists *)
+
+Lemma load_block_nth : forall (S : list block) (i : nat),
+  load_block S (Z.of_nat i + 1) = nth_error S i.
+Proof.
+  intros. unfold load_block. destruct (Z.of_nat i + 1 <=? 0) eqn:E; [apply Z.leb_le in E; lia|].
+  replace (Z.to_nat (Z.of_nat i + 1 - 1)) with i by lia. reflexivity.
+Qed.
+
+Lemma load_block_app : forall (S : list block) h b x,
+  load_block S h = Some x -> load_block (S ++ [b]) h = Some x.
+Proof.
+  unfold load_block. intros S h b x H. destruct (h <=? 0); [discriminate|].
+  rewrite nth_error_app1; [exact H|]. apply nth_error_Some. congruence.
+Qed.
+
+Lemma load_block_last : forall (S : list block) b,
+  load_block (S ++ [b]) (store_height (S ++ [b])) = Some b.
+Proof.
+  intros. unfold store_height. rewrite app_length. cbn [length].
+  replace (Z.of_nat (length S + 1)) with (Z.of_nat (length S) + 1) by lia.
+  rewrite load_block_nth. rewrite nth_error_app2 by lia. rewrite Nat.sub_diag. reflexivity.
+Qed.
+
+Lemma firstn_snoc_nth : forall (X : Type) (l : list X) i x,
+  nth_error l i = Some x -> firstn (S i) l = firstn i l ++ [x].
+Proof.
+  induction l as [|y l IH]; intros [|i] x H; cbn in *; try discriminate.
+  - inversion H; reflexivity.
+  - f_equal. apply IH; exact H.
+Qed.
+
+Lemma skipn_nth_cons : forall (X : Type) (l : list X) i x,
+  nth_error l i = Some x -> skipn i l = x :: skipn (S i) l.
+Proof.
+  induction l as [|y l IH]; intros [|i] x H; cbn in *; try discriminate.
+  - inversion H; reflexivity.
+  - apply IH; exact H.
+Qed.
+
+(* ---------------------------------------------------------------- reference execution *)
+
+Lemma deliver_all_snoc : forall txs acc t,
+  deliver_all acc (txs ++ [t]) =
+  let '(a, cs) := deliver_all acc txs in
+  let '(a', c) := adeliver A a t in (a', cs ++ [c]).
+Proof.
+  induction txs as [|x r IH]; intros acc t; cbn.
+  - destruct (adeliver A acc t); reflexivity.
+  - destruct (adeliver A acc x) as [a c]. rewrite IH.
+    destruct (deliver_all a r) as [a1 cs]. destruct (adeliver A a1 t); reflexivity.
+Qed.
+
+Lemma deliver_all_length : forall txs acc, length (snd (deliver_all acc txs)) = length txs.
+Proof.
+  induction txs as [|x r IH]; intros acc; cbn; [reflexivity|].
+  destruct (adeliver A acc x) as [a c]. specialize (IH a).
+  destruct (deliver_all a r); cbn in *. congruence.
+Qed.
+
+Lemma exec_chain_snoc : forall S acc c b,
+  exec_chain acc c (S ++ [b]) = let '(a, c') := exec_chain acc c S in exec_block a b.
+Proof.
+  induction S as [|x r IH]; intros acc c b; cbn.
+  - destruct (exec_block acc b); reflexivity.
+  - destruct (exec_block acc x) as [a c']. apply IH.
+Qed.
+
+Definition racc (S : list block) (n : nat) : N := fst (exec_chain (ainit A) [] (firstn n S)).
+Definition rcodes (S : list block) (n : nat) : list N := snd (exec_chain (ainit A) [] (firstn n S)).
+
+Lemma ref_state_eq : forall S n,
+  ref_state S n = {| s_height := Z.of_nat n; s_apphash := enc (racc S n); s_lastres := rcodes S n |}.
+Proof.
+  intros. unfold ref_state, racc, rcodes. destruct (exec_chain (ainit A) [] (firstn n S)); reflexivity.
+Qed.
+
+Lemma racc_0 : forall S, racc S 0 = ainit A. Proof. reflexivity. Qed.
+Lemma rcodes_0 : forall S, rcodes S 0 = []. Proof. reflexivity. Qed.
+
+Lemma ref_step : forall S n b, nth_error S n = Some b ->
+  exec_block (racc S n) b = (racc S (Datatypes.S n), rcodes S (Datatypes.S n)).
+Proof.
+  intros S n b H. unfold racc, rcodes. rewrite (firstn_snoc_nth _ _ _ _ H).
+  rewrite exec_chain_snoc. destruct (exec_chain (ainit A) [] (firstn n S)) as [a c]. cbn.
+  destruct (exec_block a b); reflexivity.
+Qed.
+
+Lemma racc_app : forall S b n, (n <= length S)%nat -> racc (S ++ [b]) n = racc S n.
+Proof. intros. unfold racc. rewrite firstn_app. replace (n - length S)%nat with O by lia. cbn. rewrite app_nil_r. reflexivity. Qed.
+Lemma rcodes_app : forall S b n, (n <= length S)%nat -> rcodes (S ++ [b]) n = rcodes S n.
+Proof. intros. unfold rcodes. rewrite firstn_app. replace (n - length S)%nat with O by lia. cbn. rewrite app_nil_r. reflexivity. Qed.
+
+(* a block that the proposer makes from the state of a node that applied the chain S *)
+Definition fits (S : list block) (n : nat) (b : block) : Prop :=
+  b_height b = Z.of_nat n + 1 /\ b_apphash b = enc (racc S n) /\ b_lastres b = rcodes S n.
+
+Definition chain_ok (S : list block) : Prop :=
+  forall i b, nth_error S i = Some b -> fits S i b.
+
+Lemma chain_ok_snoc : forall S b, chain_ok S -> fits S (length S) b -> chain_ok (S ++ [b]).
+Proof.
+  intros S b H F i x Hx. destruct (Nat.lt_ge_cases i (length S)) as [L|L].
+  - rewrite nth_error_app1 in Hx by exact L. destruct (H _ _ Hx) as (h1 & h2 & h3).
+    unfold fits. rewrite racc_app, rcodes_app by lia. auto.
+  - assert (i = length S).
+    { assert (i < length (S ++ [b]))%nat by (apply nth_error_Some; congruence).
+      rewrite app_length in H0; cbn in H0; lia. }
+    subst i. rewrite nth_error_app2, Nat.sub_diag in Hx by lia. cbn in Hx. inversion Hx; subst x.
+    destruct F as (h1 & h2 & h3). unfold fits. rewrite racc_app, rcodes_app by lia. auto.
+Qed.
+
+Lemma list_N_eqb_refl : forall l, list_N_eqb l l = true.
+Proof.
+  intros. unfold list_N_eqb. rewrite Nat.eqb_refl. cbn.
+  induction l as [|x l IH]; cbn; [reflexivity|]. rewrite N.eqb_refl. exact IH.
+Qed.
+
+Lemma validate_fits : forall S n b, fits S n b -> validate_block (ref_state S n) b = true.
+Proof.
+  intros S n b (h1 & h2 & h3). rewrite ref_state_eq. unfold validate_block; cbn.
+  rewrite h1, h2, h3, !Z.eqb_refl, list_N_eqb_refl. reflexivity.
+Qed.
+
+(* ---------------------------------------------------------------- journal automaton *)
+
+Lemma jrun_snoc : forall S j s e,
+  jrun S s (j ++ [e]) = match jrun S s j with Some s' => jstep S s' e | None => None end.
+Proof.
+  intros S j. induction j as [|x r IH]; intros s e; cbn.
+  - destruct (jstep S s e); reflexivity.
+  - destruct (jstep S s x); [apply IH|reflexivity].
+Qed.
+
+Lemma jstep_mono : forall S b s e r, jstep S s e = Some r -> jstep (S ++ [b]) s e = Some r.
+Proof.
+  intros S b [ah ph] e r H. destruct e, ph; cbn in *; try exact H.
+  destruct (h =? h0); [|discriminate].
+  destruct (load_block S h0) as [x|] eqn:L; [|discriminate].
+  rewrite (load_block_app _ _ b _ L). exact H.
+Qed.
+
+Lemma jrun_mono : forall S b j s r, jrun S s j = Some r -> jrun (S ++ [b]) s j = Some r.
+Proof.
+  intros S b j. induction j as [|e j IH]; intros s r H; cbn in *; [exact H|].
+  destruct (jstep S s e) as [s'|] eqn:E; [|discriminate].
+  rewrite (jstep_mono _ b _ _ _ E). apply IH; exact H.
+Qed.
+
+Definition J (S : list block) (a : app) (ah : nat) (ph : jphase) : Prop :=
+  jrun S (0, JIdle) (a_journal a) = Some (Z.of_nat ah, ph).
+
+(* ---------------------------------------------------------------- the invariant *)
+
+Definition app_idle (a : app) : Prop := a_work a = a_acc a /\ a_cur a = 0.
+
+Section PC.
+Variables (S : list block) (n sh ah : nat) (a : app) (resp : option (Z * list N)) (st : nstate).
+
+Definition ctx_ok (k : xctx) (i : nat) : Prop :=
+  match k with
+  | KFinal | KLast => n = Datatypes.S sh /\ i = sh
+  | KMock _ => False
+  | KLoop final mutate => final = Z.of_nat sh /\ (i < sh)%nat /\ (if mutate then n = Datatypes.S sh else n = sh)
+  end.
+
+Definition exec_mid (k : xctx) (b : block) (codes : list N) (ph : jphase) : Prop :=
+  exists i, nth_error S i = Some b /\ ah = i /\ ctx_ok k i /\
+            exec_block (a_acc a) b = (a_work a, codes) /\ a_cur a = b_height b /\ J S a ah ph.
+
+Definition last_done (b : block) (codes : list N) (h : Z) : Prop :=
+  app_idle a /\ J S a ah JIdle /\ n = Datatypes.S sh /\ ah = n /\ nth_error S sh = Some b /\
+  codes = rcodes S n /\ h = enc (racc S n).
+
+Definition pcinv (p : pc) : Prop :=
+  match p with
+  | PFailed _ => False
+  | PDown => app_idle a /\ J S a ah JIdle
+  | PIdle => app_idle a /\ J S a ah JIdle /\ sh = n /\ ah = n /\ st = ref_state S n
+  | PSaveBlock b => app_idle a /\ J S a ah JIdle /\ sh = n /\ ah = n /\ fits S n b /\ st = ref_state S n
+  | PWalEnd b => app_idle a /\ J S a ah JIdle /\ n = Datatypes.S sh /\ ah = sh /\ nth_error S sh = Some b
+  | PBegin k b => app_idle a /\ J S a ah JIdle /\ exists i, nth_error S i = Some b /\ ah = i /\ ctx_ok k i
+  | PDeliver k b rest codes =>
+    exists i done, nth_error S i = Some b /\ ah = i /\ ctx_ok k i /\ b_txs b = done ++ rest /\ rest <> [] /\
+      deliver_all (abegin A (a_acc a) (b_height b)) done = (a_work a, codes) /\
+      a_cur a = b_height b /\ J S a ah (JIn (b_height b) done)
+  | PEnd k b codes => exec_mid k b codes (JIn (b_height b) (b_txs b))
+  | PSaveResp k b codes =>
+    match k with
+    | KMock h => last_done b codes h
+    | KLoop _ _ => False
+    | _ => exec_mid k b codes (JEnded (b_height b))
+    end
+  | PCommit k b codes =>
+    match k with
+    | KMock _ => False
+    | KLoop _ _ => exec_mid k b codes (JEnded (b_height b))
+    | _ => exec_mid k b codes (JEnded (b_height b)) /\ resp = Some (b_height b, codes)
+    end
+  | PSaveState k b codes h =>
+    match k with KLoop _ _ => False | _ => last_done b codes h /\ resp = Some (Z.of_nat n, codes) end
+  | PInitChain => app_idle a /\ J S a ah JIdle /\ ah = 0%nat
+  | PInitSave h => app_idle a /\ J S a ah JIdle /\ ah = 0%nat /\ sh = 0%nat /\ h = enc (ainit A)
+  end.
+End PC.
+
+Definition snaps_ok (S : list block) (l : list (Z * N)) : Prop :=
+  Forall (fun e => exists kn : nat, fst e = Z.of_nat kn /\ (kn <= length S)%nat /\ snd e = racc S kn) l.
+
+Definition Inv (w : world) : Prop :=
+  exists sh ah : nat,
+    chain_ok (w_store w) /\
+    (sh = length (w_store w) \/ length (w_store w) = Datatypes.S sh) /\
+    (w_state w = ref_state (w_store w) sh \/
+     (sh = 0%nat /\ length (w_store w) = 0%nat /\ w_state w = genesis_state)) /\
+    a_height (w_app w) = Z.of_nat ah /\ (ah <= length (w_store w))%nat /\
+    a_acc (w_app w) = racc (w_store w) ah /\
+    snaps_ok (w_store w) (a_snaps (w_app w)) /\
+    (length (w_store w) = Datatypes.S sh -> ah = length (w_store w) ->
+       w_resp w = Some (Z.of_nat (length (w_store w)), rcodes (w_store w) (length (w_store w)))) /\
+    Forall (fun h => h <= Z.of_nat (length (w_store w))) (w_wal w) /\
+    pcinv (w_store w) (length (w_store w)) sh ah (w_app w) (w_resp w) (w_state w) (w_pc w).
+
+(* ---------------------------------------------------------------- the handshake's dispatch *)
+
+Ltac ssplit := repeat match goal with |- _ /\ _ => split end.
+
+Lemma nth_error_lt : forall (X : Type) (l : list X) i, (i < length l)%nat -> exists x, nth_error l i = Some x.
+Proof.
+  intros X l i H. destruct (nth_error l i) eqn:E; [eauto|]. apply nth_error_None in E. lia.
+Qed.
+
+Lemma enc_nonempty : forall x, enc x =? EMPTY = false.
+Proof. intros. unfold enc, EMPTY. apply Z.eqb_neq. lia. Qed.
+
+Lemma enter_replay_last_ok : forall w sh ah,
+  chain_ok (w_store w) -> length (w_store w) = Datatypes.S sh -> w_state w = ref_state (w_store w) sh ->
+  ah = sh -> app_idle (w_app w) -> J (w_store w) (w_app w) ah JIdle ->
+  pcinv (w_store w) (length (w_store w)) sh ah (w_app w) (w_resp w) (w_state w) (enter_replay_last w).
+Proof.
+  intros w sh ah C L St -> Id Jn. unfold enter_replay_last, store_height. rewrite L.
+  replace (Z.of_nat (Datatypes.S sh)) with (Z.of_nat sh + 1) by lia. rewrite load_block_nth.
+  assert (Hlt : (sh < length (w_store w))%nat) by lia.
+  destruct (nth_error_lt _ _ _ Hlt) as [b Hb]. rewrite Hb.
+  pose proof (C _ _ Hb) as Hf. apply validate_fits in Hf.
+  unfold enter_apply. rewrite St. rewrite Hf. cbn.
+  ssplit; auto. exists sh. cbn. auto.
+Qed.
+
+Lemma loop_next_ok : forall w sh i hash (mutate : bool),
+  chain_ok (w_store w) -> w_state w = ref_state (w_store w) sh ->
+  (if mutate then length (w_store w) = Datatypes.S sh else length (w_store w) = sh) ->
+  (i <= sh)%nat -> (hash = EMPTY \/ hash = enc (racc (w_store w) i)) ->
+  (i = sh -> hash = enc (racc (w_store w) i)) ->
+  app_idle (w_app w) -> J (w_store w) (w_app w) i JIdle ->
+  pcinv (w_store w) (length (w_store w)) sh i (w_app w) (w_resp w) (w_state w)
+        (loop_next w (Z.of_nat i + 1) hash (Z.of_nat sh) mutate).
+Proof.
+  intros w sh i hash mutate C St Ln Le Hh He Id Jn. unfold loop_next.
+  destruct (Z.leb_spec (Z.of_nat i + 1) (Z.of_nat sh)) as [L|L].
+  - rewrite load_block_nth.
+    assert (Hlt : (i < length (w_store w))%nat) by (destruct mutate; lia).
+    destruct (nth_error_lt _ _ _ Hlt) as [b Hb]. rewrite Hb.
+    assert (Hf := C _ _ Hb). destruct Hf as (_ & Hah & _).
+    assert ((hash_nonempty hash && negb (hash =? b_apphash b)) = false) as ->.
+    { destruct Hh as [->| ->]; [reflexivity|]. rewrite Hah, Z.eqb_refl. apply andb_false_r. }
+    cbn. ssplit; auto. exists i. cbn. ssplit; auto. lia.
+  - assert (i = sh) by lia. subst i. destruct mutate.
+    + apply enter_replay_last_ok; auto.
+    + rewrite (He eq_refl), St, ref_state_eq. cbn. rewrite Z.eqb_refl. cbn.
+      ssplit; auto. rewrite Ln. symmetry; apply ref_state_eq.
+Qed.
+
+Lemma dispatch_ok : forall w sh ah hash,
+  chain_ok (w_store w) ->
+  (sh = length (w_store w) \/ length (w_store w) = Datatypes.S sh) ->
+  w_state w = ref_state (w_store w) sh ->
+  a_height (w_app w) = Z.of_nat ah -> (ah <= length (w_store w))%nat ->
+  (length (w_store w) = Datatypes.S sh -> ah = length (w_store w) ->
+     w_resp w = Some (Z.of_nat (length (w_store w)), rcodes (w_store w) (length (w_store w)))) ->
+  hash = enc (racc (w_store w) ah) ->
+  app_idle (w_app w) -> J (w_store w) (w_app w) ah JIdle ->
+  pcinv (w_store w) (length (w_store w)) sh ah (w_app w) (w_resp w) (w_state w) (dispatch w hash).
+Proof.
+  intros w sh ah hash C Hn St Ha Le Hr Hh Id Jn. unfold dispatch, store_height. rewrite Ha.
+  destruct (w_store w) as [|b0 S0] eqn:ES.
+  - cbn in *. assert (sh = 0%nat) by lia. assert (ah = 0%nat) by lia. subst sh ah.
+    rewrite St, Hh. cbn. rewrite Z.eqb_refl. cbn. ssplit; auto.
+  - rewrite <- ES in *. assert (Hpos : (1 <= length (w_store w))%nat) by (rewrite ES; cbn; lia).
+    assert (store_base (w_store w) = 1) as -> by (rewrite ES; reflexivity).
+    assert (s_height (w_state w) = Z.of_nat sh) as -> by (rewrite St, ref_state_eq; reflexivity).
+    assert (s_apphash (w_state w) = enc (racc (w_store w) sh)) as Hsa by (rewrite St, ref_state_eq; reflexivity).
+    destruct (Z.eqb_spec (Z.of_nat (length (w_store w))) 0); [lia|].
+    replace (1 <? 1) with false by reflexivity. rewrite andb_false_r.
+    replace ((0 <? Z.of_nat ah) && (Z.of_nat ah <? 1 - 1)) with false
+      by (symmetry; apply andb_false_iff; right; apply Z.ltb_ge; lia).
+    destruct (Z.ltb_spec (Z.of_nat (length (w_store w))) (Z.of_nat ah)); [lia|].
+    destruct (Z.ltb_spec (Z.of_nat (length (w_store w))) (Z.of_nat sh)); [lia|].
+    destruct (Z.ltb_spec (Z.of_nat sh + 1) (Z.of_nat (length (w_store w)))); [lia|].
+    destruct (Z.eqb_spec (Z.of_nat (length (w_store w))) (Z.of_nat sh)) as [E|E].
+    + assert (length (w_store w) = sh) as Ls by lia.
+      destruct (Z.ltb_spec (Z.of_nat ah) (Z.of_nat (length (w_store w)))) as [L|L].
+      * subst sh. apply loop_next_ok; auto; try lia.
+      * destruct (Z.eqb_spec (Z.of_nat ah) (Z.of_nat (length (w_store w)))); [|lia].
+        assert (ah = sh) by lia. subst ah. rewrite Hh, Hsa, Z.eqb_refl. cbn.
+        ssplit; auto. rewrite St, Ls. reflexivity.
+    + assert (length (w_store w) = Datatypes.S sh) as Ls by lia.
+      destruct (Z.eqb_spec (Z.of_nat (length (w_store w))) (Z.of_nat sh + 1)); [|lia].
+      destruct (Z.ltb_spec (Z.of_nat ah) (Z.of_nat sh)) as [L|L].
+      * replace (Z.of_nat (length (w_store w)) - 1) with (Z.of_nat sh) by lia.
+        apply loop_next_ok; auto; try lia.
+      * destruct (Z.eqb_spec (Z.of_nat ah) (Z.of_nat sh)) as [E2|E2].
+        { apply enter_replay_last_ok; auto. lia. }
+        destruct (Z.eqb_spec (Z.of_nat ah) (Z.of_nat (length (w_store w)))); [|lia].
+        assert (ah = length (w_store w)) as Hahn by lia.
+        rewrite (Hr Ls Hahn). rewrite Z.eqb_refl. cbn [negb].
+        replace (Z.of_nat (length (w_store w))) with (Z.of_nat sh + 1) by lia.
+        rewrite load_block_nth.
+        assert (Hlt : (sh < length (w_store w))%nat) by lia.
+  destruct (nth_error_lt _ _ _ Hlt) as [b Hb]. rewrite Hb.
+        pose proof (C _ _ Hb) as Hf. apply validate_fits in Hf.
+        rewrite St. rewrite Hf. cbn [negb].
+        assert (Hlen : length (rcodes (w_store w) (length (w_store w))) = length (b_txs b)).
+        { rewrite Ls. pose proof (ref_step _ _ _ Hb) as R. unfold Model.exec_block in R.
+          pose proof (deliver_all_length (b_txs b) (abegin A (racc (w_store w) sh) (b_height b))) as DL.
+          rewrite R in DL. exact DL. }
+        rewrite Hlen, Nat.ltb_irrefl. rewrite <- Hlen, firstn_all.
+        cbn. unfold last_done. ssplit; auto. rewrite Hh, Hahn. reflexivity.
+Qed.
+(* ---------------------------------------------------------------- preservation *)
+
+Lemma ref_state_app : forall S b n, (n <= length S)%nat -> ref_state (S ++ [b]) n = ref_state S n.
+Proof. intros. rewrite !ref_state_eq, racc_app, rcodes_app by lia. reflexivity. Qed.
+
+Lemma snaps_ok_app : forall S b l, snaps_ok S l -> snaps_ok (S ++ [b]) l.
+Proof.
+  intros S b l H. unfold snaps_ok in *. eapply Forall_impl; [|exact H].
+  intros [k x] (kn & h1 & h2 & h3). exists kn. cbn in *. rewrite app_length, racc_app by lia.
+  ssplit; auto. lia.
+Qed.
+
+Lemma pcinv_J : forall S n sh ah a resp st p,
+  pcinv S n sh ah a resp st p -> exists ph, J S a ah ph.
+Proof.
+  intros S n sh ah a resp st p H.
+  destruct p; cbn in H; try contradiction; try (destruct k; try contradiction);
+    unfold exec_mid, last_done in H;
+    repeat match goal with
+           | H : exists _, _ |- _ => destruct H
+           | H : _ /\ _ |- _ => destruct H
+           end; eauto.
+Qed.
+
+Lemma J_snoc : forall S a ah ph e r,
+  J S a ah ph -> jstep S (Z.of_nat ah, ph) e = Some r ->
+  jrun S (0, JIdle) (a_journal a ++ [e]) = Some r.
+Proof. intros S a ah ph e r H E. rewrite jrun_snoc. unfold J in H. rewrite H. exact E. Qed.
+
+Lemma not_genesis : forall (w : world) sh,
+  (w_state w = ref_state (w_store w) sh \/
+     (sh = 0%nat /\ length (w_store w) = 0%nat /\ w_state w = genesis_state)) ->
+  (1 <= length (w_store w))%nat -> w_state w = ref_state (w_store w) sh.
+Proof. intros w sh [H|(_ & H & _)] L; [exact H|lia]. Qed.
+
+Lemma state_height : forall (w : world) sh,
+  (w_state w = ref_state (w_store w) sh \/
+     (sh = 0%nat /\ length (w_store w) = 0%nat /\ w_state w = genesis_state)) ->
+  s_height (w_state w) = Z.of_nat sh.
+Proof. intros w sh [H|(-> & _ & H)]; rewrite H; [rewrite ref_state_eq|]; reflexivity. Qed.
+
+Lemma commit_inv : forall w txs, Inv w -> w_pc w = PIdle -> Inv (set_pc w (start_commit w txs)).
+Proof.
+  intros w txs (sh & ah & C & Hn & Hst & Hah & Hle & Hacc & Hsn & Hr & Hw & P) E.
+  rewrite E in P. cbn in P. destruct P as (Id & Jn & Hs & Ha & St).
+  exists sh, ah. cbn. ssplit; auto.
+  unfold start_commit.
+  assert (F : fits (w_store w) (length (w_store w)) (make_block (w_state w) txs)).
+  { rewrite St, ref_state_eq. unfold fits, make_block; cbn. auto. }
+  pose proof (validate_fits _ _ _ F) as V. rewrite <- St in V. rewrite V. cbn [negb].
+  unfold store_height. destruct F as (Fh & _). rewrite Fh.
+  destruct (Z.ltb_spec (Z.of_nat (length (w_store w))) (Z.of_nat (length (w_store w)) + 1)); [|lia].
+  cbn. ssplit; auto. rewrite St, ref_state_eq. unfold fits, make_block; cbn. auto.
+Qed.
+
+Lemma restart_inv : forall w, Inv w -> is_down (w_pc w) = true -> Inv (set_pc w (start_handshake w)).
+Proof.
+  intros w (sh & ah & C & Hn & Hst & Hah & Hle & Hacc & Hsn & Hr & Hw & P) E.
+  destruct (w_pc w) eqn:Epc; try discriminate; cbn in P; [|contradiction].
+  destruct P as (Id & Jn).
+  exists sh, ah. cbn. ssplit; auto.
+  unfold start_handshake. rewrite Hah.
+  destruct (Z.eqb_spec (Z.of_nat ah) 0) as [Z0|Z0].
+  - cbn. ssplit; auto. lia.
+  - assert (1 <= length (w_store w))%nat by lia.
+    apply dispatch_ok; auto.
+    + apply not_genesis; auto.
+    + unfold app_info_hash. rewrite Hah. destruct (Z.eqb_spec (Z.of_nat ah) 0); [lia|]. rewrite Hacc. reflexivity.
+Qed.
+
+Lemma crash_inv : forall w, Inv w -> Inv (set_app w (app_crash (w_app w)) PDown).
+Proof.
+  intros w (sh & ah & C & Hn & Hst & Hah & Hle & Hacc & Hsn & Hr & Hw & P).
+  destruct (pcinv_J _ _ _ _ _ _ _ _ P) as (ph & Jn).
+  exists sh, ah. cbn. ssplit; auto.
+  - unfold app_idle; cbn; auto.
+  - unfold J; cbn. unfold jadd. eapply J_snoc; [exact Jn|]. cbn. destruct ph; reflexivity.
+Qed.
+
+Lemma snap_find_in : forall l k x, snap_find l k = Some x -> In (k, x) l.
+Proof.
+  induction l as [|[h y] r IH]; intros k x H; cbn in *; [discriminate|].
+  destruct (Z.eqb_spec h k); [inversion H; subst; auto|right; auto].
+Qed.
+
+Lemma snaps_ok_drop : forall S l k, snaps_ok S l -> snaps_ok S (snap_drop l k).
+Proof.
+  intros S l k H. induction H as [|[h y] r Hx Hr IH]; cbn; [constructor|].
+  destruct (h <? k); [constructor; auto|exact IH].
+Qed.
+
+Lemma rollback_inv : forall w k, Inv w -> is_down (w_pc w) = true ->
+  0 <= k -> k < a_height (w_app w) -> Inv (set_app w (app_rollback (w_app w) k) (w_pc w)).
+Proof.
+  intros w k (sh & ah & C & Hn & Hst & Hah & Hle & Hacc & Hsn & Hr & Hw & P) E K0 K1.
+  destruct (w_pc w) eqn:Epc; try discriminate; cbn in P; [|contradiction].
+  destruct P as (Id & Jn).
+  unfold app_rollback. destruct (snap_find (a_snaps (w_app w)) k) as [x|] eqn:F.
+  - pose proof (snap_find_in _ _ _ F) as Hin.
+    unfold snaps_ok in Hsn. rewrite Forall_forall in Hsn. destruct (Hsn _ Hin) as (kn & h1 & h2 & h3).
+    cbn in h1, h3. subst k x.
+    exists sh, kn. cbn. ssplit; auto.
+    + apply snaps_ok_drop. unfold snaps_ok. rewrite Forall_forall. exact Hsn.
+    + intros. lia.
+    + unfold app_idle; cbn; auto.
+    + unfold J; cbn. unfold jadd. eapply J_snoc; [exact Jn|]. cbn.
+      destruct (Z.leb_spec 0 (Z.of_nat kn)); [|lia]. destruct (Z.leb_spec (Z.of_nat kn) (Z.of_nat ah)); [|lia].
+      reflexivity.
+  - exists sh, ah. rewrite <- Epc. cbn. rewrite Epc. ssplit; auto. cbn. auto.
+Qed.
+
+Lemma fits_height : forall S i b, chain_ok S -> nth_error S i = Some b -> b_height b = Z.of_nat i + 1.
+Proof. intros S i b C H. destruct (C _ _ H) as (h & _). exact h. Qed.
+
+Lemma nth_lt : forall (X : Type) (l : list X) i x, nth_error l i = Some x -> (i < length l)%nat.
+Proof. intros. apply nth_error_Some. congruence. Qed.
+
+Lemma step_inv : forall w, Inv w -> Inv (step w).
+Proof.
+  intros w (sh & ah & C & Hn & Hst & Hah & Hle & Hacc & Hsn & Hr & Hw & P).
+  unfold step. destruct (w_pc w) eqn:Epc; cbn [pcinv] in P.
+  - (* PDown *) exists sh, ah. rewrite Epc. ssplit; auto.
+  - contradiction.
+  - (* PIdle *) exists sh, ah. rewrite Epc. ssplit; auto.
+  - (* PSaveBlock *)
+    destruct P as (Id & Jn & Hs & Ha & F & St). subst sh ah.
+    exists (length (w_store w)), (length (w_store w)). cbn [w_store w_wal w_state w_resp w_app w_pc].
+    rewrite app_length. cbn [length].
+    ssplit.
+    + apply chain_ok_snoc; auto.
+    + right. lia.
+    + left. rewrite ref_state_app by lia. exact St.
+    + exact Hah.
+    + lia.
+    + rewrite racc_app by lia. exact Hacc.
+    + apply snaps_ok_app; exact Hsn.
+    + intros. lia.
+    + eapply Forall_impl; [|exact Hw]. cbn. intros. lia.
+    + cbn. ssplit; auto.
+      * unfold J in *. apply jrun_mono. exact Jn.
+      * lia.
+      * rewrite nth_error_app2, Nat.sub_diag by lia. reflexivity.
+  - (* PWalEnd *)
+    destruct P as (Id & Jn & Hs & Ha & Hb). subst ah.
+    assert (St : w_state w = ref_state (w_store w) sh) by (apply not_genesis; [exact Hst|lia]).
+    pose proof (fits_height _ _ _ C Hb) as Hh.
+    exists sh, sh. cbn [w_store w_wal w_state w_resp w_app w_pc set_pc].
+    ssplit; auto.
+    + apply Forall_app; split; [exact Hw|]. constructor; [lia|constructor].
+    + unfold enter_apply. cbn [w_state]. pose proof (C _ _ Hb) as Hf. apply validate_fits in Hf.
+      rewrite St. rewrite Hf. cbn. ssplit; auto. exists sh. cbn. auto.
+  - (* PBegin *)
+    destruct P as (Id & Jn & i & Hb & Hi & Hk). subst i.
+    pose proof (fits_height _ _ _ C Hb) as Hh. destruct Id as (Iw & Ic).
+    exists sh, ah. cbn [w_store w_wal w_state w_resp w_app w_pc set_app app_begin a_height a_acc a_snaps].
+    ssplit; auto.
+    assert (Jn' : J (w_store w) (app_begin A (w_app w) (b_height b)) ah (JIn (b_height b) [])).
+    { unfold J; cbn. unfold jadd. eapply J_snoc; [exact Jn|]. cbn.
+      destruct (Z.eqb_spec (b_height b) (Z.of_nat ah + 1)); [reflexivity|lia]. }
+    unfold next_deliver. destruct (b_txs b) as [|t r] eqn:Et.
+    + cbn. exists ah. ssplit; auto.
+      * unfold Model.exec_block. rewrite Et. cbn. rewrite Iw. reflexivity.
+      * rewrite <- Et in Jn'. rewrite Et in Jn' at 1. rewrite Et. exact Jn'.
+    + cbn. exists ah, []. ssplit; auto.
+      * discriminate.
+      * cbn. rewrite Iw. reflexivity.
+  - (* PDeliver *)
+    destruct P as (i & done & Hb & Hi & Hk & Ht & Hne & Hd & Hc & Jn). subst i.
+    destruct rest as [|t rest']; [congruence|].
+    unfold app_deliver. destruct (adeliver A (a_work (w_app w)) t) as [wk c] eqn:Ead.
+    set (a' := {| a_height := a_height (w_app w); a_acc := a_acc (w_app w); a_snaps := a_snaps (w_app w);
+                  a_work := wk; a_cur := a_cur (w_app w); a_journal := jadd (w_app w) (JDeliver t) |}).
+    assert (Hd' : deliver_all (abegin A (a_acc a') (b_height b)) (done ++ [t]) = (a_work a', codes ++ [c])).
+    { cbn. rewrite deliver_all_snoc, Hd, Ead. reflexivity. }
+    assert (Jn' : J (w_store w) a' ah (JIn (b_height b) (done ++ [t]))).
+    { unfold J; cbn. unfold jadd. eapply J_snoc; [exact Jn|]. reflexivity. }
+    exists sh, ah. cbn [w_store w_wal w_state w_resp w_app w_pc set_app].
+    ssplit; auto.
+    unfold next_deliver. destruct rest' as [|t2 r2].
+    + cbn. exists ah. ssplit; auto.
+      * unfold Model.exec_block. rewrite Ht. exact Hd'.
+      * rewrite Ht. exact Jn'.
+    + cbn. exists ah, (done ++ [t]). ssplit; auto.
+      * rewrite Ht, <- app_assoc. reflexivity.
+      * discriminate.
+  - (* PEnd *)
+    destruct P as (i & Hb & Hi & Hk & He & Hc & Jn). subst i.
+    pose proof (fits_height _ _ _ C Hb) as Hh.
+    assert (Jn' : J (w_store w) (app_end (w_app w) (b_height b)) ah (JEnded (b_height b))).
+    { unfold J; cbn. unfold jadd. eapply J_snoc; [exact Jn|]. cbn. rewrite Z.eqb_refl.
+      rewrite Hh, load_block_nth, Hb. unfold list_tx_eqb. rewrite list_N_eqb_refl. reflexivity. }
+    exists sh, ah. cbn [w_store w_wal w_state w_resp w_app w_pc set_app app_end a_height a_acc a_snaps].
+    ssplit; auto.
+    destruct k; cbn in Hk; try contradiction; cbn; exists ah; ssplit; auto.
+  - (* PSaveResp *)
+    destruct k; try contradiction.
+    + destruct P as (i & Hb & Hi & Hk & He & Hc & Jn). subst i. destruct Hk as (Hk1 & Hk2). subst ah.
+      exists sh, sh. cbn [w_store w_wal w_state w_resp w_app w_pc]. ssplit; auto.
+      * intros. lia.
+      * cbn. ssplit; auto. exists sh. cbn. ssplit; auto.
+    + destruct P as (i & Hb & Hi & Hk & He & Hc & Jn). subst i. destruct Hk as (Hk1 & Hk2). subst ah.
+      exists sh, sh. cbn [w_store w_wal w_state w_resp w_app w_pc]. ssplit; auto.
+      * intros. lia.
+      * cbn. ssplit; auto. exists sh. cbn. ssplit; auto.
+    + destruct P as (Id & Jn & Hs & Ha & Hb & Hcd & Hh).
+      pose proof (fits_height _ _ _ C Hb) as Hbh.
+      exists sh, ah. cbn [w_store w_wal w_state w_resp w_app w_pc]. ssplit; auto.
+      * intros. rewrite Hbh, Hcd, Hs. f_equal. f_equal. lia.
+      * cbn. unfold last_done. ssplit; auto. rewrite Hbh, Hs. f_equal. f_equal. lia.
+  - (* PCommit *)
+    assert (EM : exists i, nth_error (w_store w) i = Some b /\ ah = i /\ ctx_ok (length (w_store w)) sh k i /\
+                 exec_block (a_acc (w_app w)) b = (a_work (w_app w), codes) /\ a_cur (w_app w) = b_height b /\
+                 J (w_store w) (w_app w) ah (JEnded (b_height b))).
+    { destruct k; try contradiction; [destruct P as (P & _); exact P|destruct P as (P & _); exact P|exact P]. }
+    destruct EM as (i & Hb & Hi & Hk & He & Hc & Jn). subst i.
+    pose proof (fits_height _ _ _ C Hb) as Hh. pose proof (nth_lt _ _ _ _ Hb) as Hlt.
+    pose proof (ref_step _ _ _ Hb) as R. rewrite <- Hacc, He in R. inversion R as [[Rw Rc]].
+    unfold app_commit. rewrite Hc.
+    destruct (Z.ltb_spec 0 (b_height b)); [|lia].
+    set (a' := {| a_height := b_height b; a_acc := a_work (w_app w);
+                  a_snaps := (a_height (w_app w), a_acc (w_app w)) :: a_snaps (w_app w);
+                  a_work := a_work (w_app w); a_cur := 0; a_journal := jadd (w_app w) (JCommit (b_height b)) |}).
+    assert (Ja : J (w_store w) a' (Datatypes.S ah) JIdle).
+    { unfold J; cbn. unfold jadd. eapply J_snoc; [exact Jn|]. cbn. rewrite Z.eqb_refl. rewrite Hh.
+      f_equal. f_equal. lia. }
+    assert (Sn : snaps_ok (w_store w) (a_snaps a')).
+    { cbn. constructor; [|exact Hsn]. exists ah. cbn. ssplit; auto. }
+    assert (Ia : app_idle a') by (unfold app_idle; cbn; auto).
+    assert (Hha : a_height a' = Z.of_nat (Datatypes.S ah)) by (cbn; lia).
+    destruct k; cbn in Hk; try contradiction.
+    + destruct P as (_ & Hrs). destruct Hk as (Hk1 & Hk2). subst ah.
+      exists sh, (Datatypes.S sh). cbn [w_store w_wal w_state w_resp w_app w_pc set_app].
+      assert (E1 : b_height b = Z.of_nat (length (w_store w))) by lia.
+      assert (E2 : codes = rcodes (w_store w) (length (w_store w))) by (rewrite Hk1; exact Rc).
+      assert (E3 : enc (a_work (w_app w)) = enc (racc (w_store w) (length (w_store w)))) by (rewrite Hk1, Rw; reflexivity).
+      ssplit; auto; try lia.
+      * intros. congruence.
+      * cbn. unfold last_done. ssplit; auto; try lia; congruence.
+    + destruct P as (_ & Hrs). destruct Hk as (Hk1 & Hk2). subst ah.
+      exists sh, (Datatypes.S sh). cbn [w_store w_wal w_state w_resp w_app w_pc set_app].
+      assert (E1 : b_height b = Z.of_nat (length (w_store w))) by lia.
+      assert (E2 : codes = rcodes (w_store w) (length (w_store w))) by (rewrite Hk1; exact Rc).
+      assert (E3 : enc (a_work (w_app w)) = enc (racc (w_store w) (length (w_store w)))) by (rewrite Hk1, Rw; reflexivity).
+      ssplit; auto; try lia.
+      * intros. congruence.
+      * cbn. unfold last_done. ssplit; auto; try lia; congruence.
+    + destruct Hk as (Hk1 & Hk2 & Hk3). subst final.
+      exists sh, (Datatypes.S ah).
+      cbn [w_store w_wal w_state w_resp w_app w_pc set_app set_pc].
+      ssplit; auto; try lia.
+      replace (b_height b + 1) with (Z.of_nat (Datatypes.S ah) + 1) by lia.
+      apply (loop_next_ok (set_app w a' PIdle) sh (Datatypes.S ah) (enc (a_work (w_app w))) mutate); cbn; auto.
+      { apply not_genesis; [exact Hst|lia]. }
+      { right. rewrite Rw. reflexivity. }
+      { intros _. rewrite Rw. reflexivity. }
+  - (* PSaveState *)
+    assert (LD : last_done (w_store w) (length (w_store w)) sh ah (w_app w) b codes hash /\
+                 w_resp w = Some (Z.of_nat (length (w_store w)), codes)).
+    { destruct k; try contradiction; exact P. }
+    destruct LD as ((Id & Jn & Hs & Ha & Hb & Hcd & Hh) & Hrs).
+    pose proof (fits_height _ _ _ C Hb) as Hbh.
+    exists (length (w_store w)), ah. cbn [w_store w_wal w_state w_resp w_app w_pc set_state finished].
+    assert (Est : {| s_height := b_height b; s_apphash := hash; s_lastres := codes |} =
+                  ref_state (w_store w) (length (w_store w))).
+    { rewrite ref_state_eq, Hbh, Hh, Hcd, Hs. f_equal. lia. }
+    ssplit; auto; try (intros; lia).
+    cbn. ssplit; auto.
+  - (* PInitChain *)
+    destruct P as (Id & Jn & Ha). subst ah.
+    assert (Ja : J (w_store w) (app_init A (w_app w)) 0 JIdle).
+    { unfold J; cbn. unfold jadd. eapply J_snoc; [exact Jn|]. reflexivity. }
+    assert (Ia : app_idle (app_init A (w_app w))).
+    { destruct Id as (I1 & I2). unfold app_idle; cbn. rewrite Hacc. auto. }
+    rewrite (state_height _ _ Hst).
+    destruct (Z.eqb_spec (Z.of_nat sh) 0) as [Z0|Z0].
+    + exists sh, 0%nat. cbn [w_store w_wal w_state w_resp w_app w_pc set_app set_pc]. ssplit; auto.
+      cbn. ssplit; auto. lia.
+    + exists sh, 0%nat. cbn [w_store w_wal w_state w_resp w_app w_pc set_app set_pc]. ssplit; auto.
+      apply (dispatch_ok (set_app w (app_init A (w_app w)) PIdle) sh 0); cbn; auto.
+      destruct Hst as [H|(H & _)]; [exact H|lia].
+  - (* PInitSave *)
+    destruct P as (Id & Jn & Ha & Hs & Hh). subst ah sh hash.
+    assert (Est : {| s_height := s_height (w_state w); s_apphash := enc (ainit A); s_lastres := s_lastres (w_state w) |} =
+                  ref_state (w_store w) 0).
+    { rewrite ref_state_eq. destruct Hst as [H|(_ & _ & H)]; rewrite H; [rewrite ref_state_eq|]; reflexivity. }
+    exists 0%nat, 0%nat. cbn [w_store w_wal w_state w_resp w_app w_pc set_state set_pc]. ssplit; auto.
+    apply (dispatch_ok (set_state w _ PIdle) 0 0); cbn; auto.
+Qed.
+
+Lemma do_op_inv : forall w o, Inv w -> Inv (do_op w o).
+Proof.
+  intros w o H. destruct o; cbn.
+  - destruct (is_idle (w_pc w)) eqn:E; [|exact H]. apply commit_inv; [exact H|].
+    destruct (w_pc w); try discriminate; reflexivity.
+  - destruct (is_down (w_pc w)) eqn:E; [|exact H]. apply restart_inv; auto.
+  - apply step_inv; exact H.
+  - apply crash_inv; exact H.
+  - destruct (is_down (w_pc w)) eqn:E; [|exact H]. cbn.
+    destruct (Z.leb_spec 0 k); [|exact H]. cbn.
+    destruct (Z.ltb_spec k (a_height (w_app w))); [|exact H]. cbn.
+    apply rollback_inv; auto.
+Qed.
+
+Lemma inv0 : Inv (world0 A).
+Proof.
+  exists 0%nat, 0%nat. cbn. ssplit; auto.
+  - intros i b H. destruct i; discriminate.
+  - constructor.
+  - intros. discriminate.
+  - unfold app_idle; cbn; auto.
+  - reflexivity.
+Qed.
+
+Lemma run_inv : forall ops w, Inv w -> Inv (run ops w).
+Proof.
+  induction ops as [|o r IH]; intros w H; cbn; [exact H|]. apply IH. apply do_op_inv. exact H.
+Qed.
+
+(* ---------------------------------------------------------------- what an accepted journal means *)
+
+(* the height the application reports (Info) after a journal: its last Commit / restore *)
+Fixpoint reported_height (j : list jev) (h : Z) : Z :=
+  match j with
+  | [] => h
+  | JCommit x :: r => reported_height r x
+  | JRollback k :: r => reported_height r k
+  | _ :: r => reported_height r h
+  end.
+
+Lemma jrun_height : forall chain j s r, jrun chain s j = Some r -> fst r = reported_height j (fst s).
+Proof.
+  intros chain j. induction j as [|e j IH]; intros [ah ph] r H; cbn [jrun] in H.
+  - inversion H; reflexivity.
+  - destruct (jstep chain (ah, ph) e) as [s'|] eqn:E; [|discriminate].
+    rewrite (IH _ _ H). clear IH H.
+    destruct e, ph; cbn in E; try discriminate; cbn;
+      repeat match type of E with
+             | (if ?c then _ else _) = _ => destruct c eqn:?; try discriminate
+             | match ?c with Some _ => _ | None => _ end = _ => destruct c; try discriminate
+             end; inversion E; subst; cbn; try reflexivity.
+    apply Z.eqb_eq in Heqb. congruence.
+Qed.
+
+Lemma jrun_split : forall chain j1 e j2 s r,
+  jrun chain s (j1 ++ e :: j2) = Some r ->
+  exists s1 s2, jrun chain s j1 = Some s1 /\ jstep chain s1 e = Some s2.
+Proof.
+  intros chain j1. induction j1 as [|x j1 IH]; intros e j2 s r H; cbn [jrun List.app] in *.
+  - destruct (jstep chain s e) eqn:E; [|discriminate]. eauto.
+  - destruct (jstep chain s x) as [s'|]; [|discriminate]. eapply IH; exact H.
+Qed.
+
+Lemma phase_in : forall chain j ah h d,
+  jrun chain (0, JIdle) j = Some (ah, JIn h d) ->
+  exists j0, j = j0 ++ JBegin h :: map JDeliver d.
+Proof.
+  intros chain j. induction j as [|e j IH] using rev_ind; intros ah h d H.
+  - cbn in H. discriminate.
+  - rewrite jrun_snoc in H. destruct (jrun chain (0, JIdle) j) as [[ah' ph']|] eqn:E; [|discriminate].
+    destruct e, ph'; cbn in H; try discriminate;
+      repeat match type of H with
+             | (if ?c then _ else _) = _ => destruct c eqn:?; try discriminate
+             | match ?c with Some _ => _ | None => _ end = _ => destruct c; try discriminate
+             end; inversion H; subst.
+    + exists j. reflexivity.
+    + destruct (IH _ _ _ eq_refl) as (j0 & ->). exists j0.
+      rewrite map_app. cbn. rewrite <- app_assoc. reflexivity.
+Qed.
+
+Lemma phase_ended : forall chain j ah h,
+  jrun chain (0, JIdle) j = Some (ah, JEnded h) ->
+  exists j0 b, j = j0 ++ JBegin h :: map JDeliver (b_txs b) ++ [JEnd h] /\ load_block chain h = Some b.
+Proof.
+  intros chain j ah h H. destruct j as [|e j] using rev_ind; [discriminate|]. clear IHj.
+  rewrite jrun_snoc in H. destruct (jrun chain (0, JIdle) j) as [[ah' ph']|] eqn:E; [|discriminate].
+  destruct e, ph'; cbn in H; try discriminate;
+    try (match type of H with (if ?c then _ else _) = _ => destruct c; discriminate end).
+  destruct (h0 =? h1) eqn:E1; [|discriminate]. apply Z.eqb_eq in E1. subst h1.
+  destruct (load_block chain h0) as [b|] eqn:L; [|discriminate].
+  destruct (list_tx_eqb delivered (b_txs b)) eqn:E2; [|discriminate]. inversion H; subst.
+  destruct (phase_in _ _ _ _ _ E) as (j0 & ->).
+  assert (delivered = b_txs b).
+  { clear - E2. unfold list_tx_eqb, list_N_eqb in E2. apply andb_true_iff in E2 as [L F].
+    apply Nat.eqb_eq in L. revert L F. generalize (b_txs b). induction delivered as [|x r IH]; intros [|y l] L F; cbn in *; try discriminate; auto.
+    apply andb_true_iff in F as [F1 F2]. apply N.eqb_eq in F1. subst. f_equal. apply IH; auto. }
+  subst delivered. exists j0, b. split; [|exact L]. rewrite <- app_assoc. reflexivity.
+Qed.
+
+(* ---------------------------------------------------------------- the theorems (proved here, stated in Props.v) *)
+
+Definition reach (ops : list mop) : world := run ops (world0 A).
+
+Lemma reach_inv : forall ops, Inv (reach ops).
+Proof. intros. apply run_inv. apply inv0. Qed.
+
+Lemma journal_accepted : forall ops,
+  journal_ok (w_store (reach ops)) (a_journal (w_app (reach ops))) = true.
+Proof.
+  intros ops. destruct (reach_inv ops) as (sh & ah & C & Hn & Hst & Hah & Hle & Hacc & Hsn & Hr & Hw & P).
+  destruct (pcinv_J _ _ _ _ _ _ _ _ P) as (ph & Jn). unfold journal_ok. unfold J in Jn. rewrite Jn. reflexivity.
+Qed.
+
+Lemma journal_run : forall ops, exists r,
+  jrun (w_store (reach ops)) (0, JIdle) (a_journal (w_app (reach ops))) = Some r.
+Proof.
+  intros ops. pose proof (journal_accepted ops) as H. unfold journal_ok in H.
+  destruct (jrun _ _ _) as [r|]; [eauto|discriminate].
+Qed.
+
+Lemma initchain_only_at_zero : forall ops j1 j2,
+  a_journal (w_app (reach ops)) = j1 ++ JInit :: j2 -> reported_height j1 0 = 0.
+Proof.
+  intros ops j1 j2 E. destruct (journal_run ops) as (r & H). rewrite E in H.
+  destruct (jrun_split _ _ _ _ _ _ H) as ([ah ph] & s2 & H1 & H2).
+  pose proof (jrun_height _ _ _ _ H1) as Hh. cbn in Hh. rewrite <- Hh.
+  destruct ph; cbn in H2; try discriminate. destruct (Z.eqb_spec ah 0); [auto|discriminate].
+Qed.
+
+Lemma begin_is_next_height : forall ops j1 h j2,
+  a_journal (w_app (reach ops)) = j1 ++ JBegin h :: j2 -> h = reported_height j1 0 + 1.
+Proof.
+  intros ops j1 h j2 E. destruct (journal_run ops) as (r & H). rewrite E in H.
+  destruct (jrun_split _ _ _ _ _ _ H) as ([ah ph] & s2 & H1 & H2).
+  pose proof (jrun_height _ _ _ _ H1) as Hh. cbn in Hh. rewrite <- Hh.
+  destruct ph; cbn in H2; try discriminate. destruct (Z.eqb_spec h (ah + 1)); [auto|discriminate].
+Qed.
+
+Lemma commit_follows_block : forall ops j1 h j2,
+  a_journal (w_app (reach ops)) = j1 ++ JCommit h :: j2 ->
+  exists j0 b, j1 = j0 ++ JBegin h :: map JDeliver (b_txs b) ++ [JEnd h] /\
+               load_block (w_store (reach ops)) h = Some b.
+Proof.
+  intros ops j1 h j2 E. destruct (journal_run ops) as (r & H). rewrite E in H.
+  destruct (jrun_split _ _ _ _ _ _ H) as ([ah ph] & s2 & H1 & H2).
+  destruct ph; cbn in H2; try discriminate. destruct (Z.eqb_spec h h0); [|discriminate]. subst h0.
+  eapply phase_ended; exact H1.
+Qed.
+
+Lemma end_follows_txs : forall ops j1 h j2,
+  a_journal (w_app (reach ops)) = j1 ++ JEnd h :: j2 ->
+  exists j0 b, j1 = j0 ++ JBegin h :: map JDeliver (b_txs b) /\
+               load_block (w_store (reach ops)) h = Some b.
+Proof.
+  intros ops j1 h j2 E. destruct (journal_run ops) as (r & H).
+  assert (E' : a_journal (w_app (reach ops)) = (j1 ++ [JEnd h]) ++ j2) by (rewrite <- app_assoc; exact E).
+  destruct j2 as [|e j2].
+  - rewrite app_nil_r in E'. rewrite E' in H. destruct r as [ah ph].
+    rewrite jrun_snoc in H. destruct (jrun _ _ j1) as [[ah' ph']|] eqn:E1; [|discriminate].
+    assert (exists x, jrun (w_store (reach ops)) (0, JIdle) (j1 ++ [JEnd h]) = Some (x, JEnded h)) as (x & Hx).
+    { rewrite jrun_snoc, E1. destruct ph'; cbn in H |- *; try discriminate.
+      destruct (Z.eqb_spec h h0); [subst h0|discriminate]. destruct (load_block _ h); [|discriminate].
+      destruct (list_tx_eqb _ _); [|discriminate]. eauto. }
+    destruct (phase_ended _ _ _ _ Hx) as (j0 & b & Hj & L). exists j0, b. split; [|exact L].
+    change (JBegin h :: map JDeliver (b_txs b) ++ [JEnd h]) with ((JBegin h :: map JDeliver (b_txs b)) ++ [JEnd h]) in Hj.
+    rewrite app_assoc in Hj. apply app_inj_tail in Hj. tauto.
+  - rewrite E' in H. destruct (jrun_split _ _ _ _ _ _ H) as ([ah ph] & s2 & H1 & _).
+    assert (ph = JEnded h).
+    { rewrite jrun_snoc in H1. destruct (jrun _ _ j1) as [[ah' ph']|]; [|discriminate].
+      destruct ph'; cbn in H1; try discriminate. destruct (h =? h0) eqn:Eh; [|discriminate].
+      apply Z.eqb_eq in Eh. subst h0.
+      destruct (load_block _ h); [|discriminate]. destruct (list_tx_eqb _ _); [|discriminate].
+      inversion H1; reflexivity. }
+    subst ph. destruct (phase_ended _ _ _ _ H1) as (j0 & b & Hj & L). exists j0, b. split; [|exact L].
+    change (JBegin h :: map JDeliver (b_txs b) ++ [JEnd h]) with ((JBegin h :: map JDeliver (b_txs b)) ++ [JEnd h]) in Hj.
+    rewrite app_assoc in Hj. apply app_inj_tail in Hj. tauto.
+Qed.
+
+Lemma never_fails : forall ops c, w_pc (reach ops) <> PFailed c.
+Proof.
+  intros ops c E. destruct (reach_inv ops) as (sh & ah & C & Hn & Hst & Hah & Hle & Hacc & Hsn & Hr & Hw & P).
+  rewrite E in P. exact P.
+Qed.
+
+Lemma recovery_agrees : forall ops, w_pc (reach ops) = PIdle ->
+  let w := reach ops in
+  store_height (w_store w) = s_height (w_state w) /\
+  s_height (w_state w) = a_height (w_app w) /\
+  s_apphash (w_state w) = enc (a_acc (w_app w)) /\
+  w_state w = ref_state (w_store w) (length (w_store w)) /\
+  a_work (w_app w) = a_acc (w_app w).
+Proof.
+  intros ops E. cbn zeta.
+  destruct (reach_inv ops) as (sh & ah & C & Hn & Hst & Hah & Hle & Hacc & Hsn & Hr & Hw & P).
+  rewrite E in P. cbn in P. destruct P as ((Iw & Ic) & Jn & Hs & Ha & St). subst sh ah.
+  rewrite St, ref_state_eq, Hah, Hacc. cbn. unfold store_height. ssplit; auto. congruence.
+Qed.
+
+Lemma cursors : forall ops,
+  let w := reach ops in
+  s_height (w_state w) <= store_height (w_store w) <= s_height (w_state w) + 1 /\
+  0 <= a_height (w_app w) <= store_height (w_store w) /\
+  Forall (fun h => h <= store_height (w_store w)) (w_wal w).
+Proof.
+  intros ops. cbn zeta.
+  destruct (reach_inv ops) as (sh & ah & C & Hn & Hst & Hah & Hle & Hacc & Hsn & Hr & Hw & P).
+  rewrite (state_height _ _ Hst), Hah. unfold store_height. ssplit; try lia. exact Hw.
+Qed.
+
+Lemma saved_state_is_crash_free : forall ops,
+  let w := reach ops in
+  w_state w = genesis_state \/ exists n, (n <= length (w_store w))%nat /\ w_state w = ref_state (w_store w) n.
+Proof.
+  intros ops. cbn zeta.
+  destruct (reach_inv ops) as (sh & ah & C & Hn & Hst & Hah & Hle & Hacc & Hsn & Hr & Hw & P).
+  destruct Hst as [H|(_ & _ & H)]; [right; exists sh; split; [lia|exact H]|left; exact H].
+Qed.
+
+Lemma app_state_is_crash_free : forall ops,
+  let w := reach ops in
+  exists n, a_height (w_app w) = Z.of_nat n /\ (n <= length (w_store w))%nat /\
+            a_acc (w_app w) = racc (w_store w) n.
+Proof.
+  intros ops. cbn zeta.
+  destruct (reach_inv ops) as (sh & ah & C & Hn & Hst & Hah & Hle & Hacc & Hsn & Hr & Hw & P).
+  exists ah. auto.
+Qed.
+
+(* ---------------------------------------------------------------- termination of the procedures *)
+
+Definition cost (b : block) : nat := 7 + length (b_txs b).
+Definition tailcost (S : list block) (i : nat) : nat :=
+  fold_right (fun b acc => cost b + acc)%nat 0%nat (skipn i S).
+Definition kafter (S : list block) (k : xctx) (b : block) : nat :=
+  match k with KLoop _ _ => tailcost S (Z.to_nat (b_height b)) | _ => 0%nat end.
+
+Definition mupc (S : list block) (p : pc) : nat :=
+  match p with
+  | PDown | PFailed _ | PIdle => 0
+  | PSaveBlock b => 9 + length (b_txs b)
+  | PWalEnd b => 8 + length (b_txs b)
+  | PBegin k b => 6 + length (b_txs b) + kafter S k b
+  | PDeliver k b rest _ => 5 + length rest + kafter S k b
+  | PEnd k b _ => 4 + kafter S k b
+  | PSaveResp k b _ => 3 + kafter S k b
+  | PCommit k b _ => 2 + kafter S k b
+  | PSaveState _ _ _ _ => 1
+  | PInitChain => tailcost S 0 + 5
+  | PInitSave _ => tailcost S 0 + 4
+  end%nat.
+
+Definition mu (w : world) : nat := mupc (w_store w) (w_pc w).
+
+Lemma tailcost_nth : forall S i b, nth_error S i = Some b ->
+  tailcost S i = (cost b + tailcost S (Datatypes.S i))%nat.
+Proof. intros S i b H. unfold tailcost. rewrite (skipn_nth_cons _ _ _ _ H). reflexivity. Qed.
+
+Lemma tailcost_S : forall S i, (tailcost S (Datatypes.S i) <= tailcost S i)%nat.
+Proof.
+  intros S i. destruct (nth_error S i) as [b|] eqn:E.
+  - rewrite (tailcost_nth _ _ _ E). lia.
+  - apply nth_error_None in E. unfold tailcost. rewrite !skipn_all2 by lia. cbn. lia.
+Qed.
+
+Lemma tailcost_mono : forall S i j, (i <= j)%nat -> (tailcost S j <= tailcost S i)%nat.
+Proof.
+  intros S i j H. induction H as [|j H IH]; [lia|]. pose proof (tailcost_S S j). lia.
+Qed.
+
+Lemma mu_replay_last : forall (w : world) i, (i < length (w_store w))%nat ->
+  (mupc (w_store w) (enter_replay_last w) <= tailcost (w_store w) i)%nat.
+Proof.
+  intros w i H. unfold enter_replay_last, store_height.
+  replace (Z.of_nat (length (w_store w))) with (Z.of_nat (length (w_store w) - 1) + 1) by lia.
+  rewrite load_block_nth. destruct (nth_error (w_store w) (length (w_store w) - 1)) as [b|] eqn:E; [|cbn; lia].
+  unfold enter_apply. destruct (validate_block (w_state w) b); [|cbn; lia]. cbn.
+  pose proof (tailcost_nth _ _ _ E). pose proof (tailcost_mono (w_store w) i (length (w_store w) - 1)).
+  unfold cost in *. lia.
+Qed.
+
+Lemma mu_loop_next : forall (w : world) i hash final (mutate : bool),
+  chain_ok (w_store w) -> (mutate = true -> (i < length (w_store w))%nat) ->
+  (mupc (w_store w) (loop_next w (Z.of_nat i + 1) hash final mutate) <= tailcost (w_store w) i)%nat.
+Proof.
+  intros w i hash final mutate C M. unfold loop_next.
+  destruct (Z.of_nat i + 1 <=? final).
+  - rewrite load_block_nth. destruct (nth_error (w_store w) i) as [b|] eqn:E; [|cbn; lia].
+    destruct (hash_nonempty hash && negb (hash =? b_apphash b)); [cbn; lia|]. cbn.
+    rewrite (fits_height _ _ _ C E). replace (Z.to_nat (Z.of_nat i + 1)) with (Datatypes.S i) by lia.
+    rewrite (tailcost_nth _ _ _ E). unfold cost. lia.
+  - destruct mutate.
+    + apply mu_replay_last. auto.
+    + destruct (hash =? s_apphash (w_state w)); cbn; lia.
+Qed.
+
+Lemma mu_dispatch : forall (w : world) ah hash,
+  chain_ok (w_store w) -> a_height (w_app w) = Z.of_nat ah ->
+  (mupc (w_store w) (dispatch w hash) <= tailcost (w_store w) 0 + 3)%nat.
+Proof.
+  intros w ah hash C Ha. unfold dispatch. rewrite Ha. unfold store_height.
+  destruct (Z.eqb_spec (Z.of_nat (length (w_store w))) 0).
+  { destruct (hash =? _); cbn; lia. }
+  assert (L0 : (0 < length (w_store w))%nat) by lia.
+  repeat match goal with
+         | |- context [if ?c then PFailed _ else _] => destruct c; [cbn; lia|]
+         end.
+  destruct (Z.eqb_spec (Z.of_nat (length (w_store w))) (s_height (w_state w))).
+  - destruct (Z.ltb_spec (Z.of_nat ah) (Z.of_nat (length (w_store w)))).
+    + pose proof (mu_loop_next w ah EMPTY (Z.of_nat (length (w_store w))) false C ltac:(discriminate)).
+      pose proof (tailcost_mono (w_store w) 0 ah). lia.
+    + destruct (Z.of_nat ah =? _); [|cbn; lia]. destruct (hash =? _); cbn; lia.
+  - destruct (Z.eqb_spec (Z.of_nat (length (w_store w))) (s_height (w_state w) + 1)); [|cbn; lia].
+    destruct (Z.ltb_spec (Z.of_nat ah) (s_height (w_state w))).
+    + assert (M : true = true -> (ah < length (w_store w))%nat) by (intros; lia).
+      pose proof (mu_loop_next w ah EMPTY (Z.of_nat (length (w_store w)) - 1) true C M).
+      pose proof (tailcost_mono (w_store w) 0 ah). lia.
+    + destruct (Z.of_nat ah =? s_height (w_state w)).
+      * pose proof (mu_replay_last w 0 L0). lia.
+      * destruct (Z.of_nat ah =? _); [|cbn; lia].
+        destruct (w_resp w) as [[rh codes]|]; [|cbn; lia].
+        destruct (negb (rh =? _)); [cbn; lia|].
+        destruct (load_block _ _); [|cbn; lia].
+        destruct (negb _); [cbn; lia|]. destruct (_ <? _)%nat; cbn; lia.
+Qed.
+
+Lemma step_decreases : forall w, Inv w -> is_terminal (w_pc w) = false -> (mu (step w) < mu w)%nat.
+Proof.
+  intros w (sh & ah & C & Hn & Hst & Hah & Hle & Hacc & Hsn & Hr & Hw & P) T.
+  unfold mu, step. destruct (w_pc w) eqn:Epc; try discriminate; cbn [pcinv] in P; cbn [mupc].
+  - cbn [mupc length kafter w_store w_pc set_state finished]; lia.
+  - cbn [w_store w_pc set_pc]. unfold enter_apply. destruct (validate_block _ b); cbn [mupc length kafter w_store w_pc set_pc set_app set_state]; lia.
+  - cbn [w_store w_pc set_app]. unfold next_deliver. destruct (b_txs b); cbn [mupc length kafter w_store w_pc set_pc set_app set_state]; lia.
+  - destruct rest as [|t r]; [cbn [mupc length kafter w_store w_pc set_pc set_app set_state]; lia|]. destruct (app_deliver A (w_app w) t) as [a c].
+    cbn [w_store w_pc set_app]. unfold next_deliver. destruct r; cbn [mupc length kafter w_store w_pc set_pc set_app set_state]; lia.
+  - cbn [w_store w_pc set_app]. destruct k; cbn [mupc length kafter w_store w_pc set_pc set_app set_state]; lia.
+  - cbn [w_store w_pc]. destruct k; cbn [mupc length kafter w_store w_pc set_pc set_app set_state]; lia.
+  - destruct (app_commit (w_app w)) as [a h] eqn:Eac. destruct k; try (cbn [mupc length kafter w_store w_pc set_pc set_app set_state]; lia).
+    cbn [w_store w_pc set_app set_pc].
+    destruct P as (i & Hb & Hi & (Hk1 & Hk2 & Hk3) & _). subst i.
+    pose proof (fits_height _ _ _ C Hb) as Hh.
+    replace (b_height b + 1) with (Z.of_nat (Z.to_nat (b_height b)) + 1) by lia.
+    assert (M : mutate = true -> (Z.to_nat (b_height b) < length (w_store w))%nat).
+    { intros ->. lia. }
+    pose proof (mu_loop_next (set_app w a PIdle) (Z.to_nat (b_height b)) h final mutate C M) as B.
+    cbn [w_store set_app] in B. cbn [mupc kafter]. lia.
+  - cbn [mupc length kafter w_store w_pc set_state finished]; lia.
+  - destruct (s_height (w_state w) =? 0).
+    + cbn [mupc length kafter w_store w_pc set_pc set_app]; lia.
+    + cbn [w_store w_pc set_app set_pc].
+      pose proof (mu_dispatch (set_app w (app_init A (w_app w)) PIdle) ah (enc (ainit A)) C Hah) as B.
+      cbn [w_store set_app] in B. cbn [mupc]. lia.
+  - cbn [w_store w_pc set_state set_pc].
+    match goal with |- context [dispatch ?w1 ?h] => pose proof (mu_dispatch w1 ah h C Hah) as B end.
+    cbn [w_store set_state] in B. cbn [mupc]. lia.
+Qed.
+
+Fixpoint iter (k : nat) (w : world) : world := match k with O => w | Datatypes.S k' => iter k' (step w) end.
+
+Lemma run_steps : forall k w, run (repeat MStep k) w = iter k w.
+Proof. induction k as [|k IH]; intros w; cbn; [reflexivity|apply IH]. Qed.
+
+Lemma iter_inv : forall k w, Inv w -> Inv (iter k w).
+Proof. induction k as [|k IH]; intros w H; cbn; [exact H|]. apply IH. apply step_inv. exact H. Qed.
+
+Lemma terminates : forall m w, (mu w <= m)%nat -> Inv w ->
+  exists k, is_terminal (w_pc (iter k w)) = true /\
+            forall j, (j < k)%nat -> is_terminal (w_pc (iter j w)) = false.
+Proof.
+  induction m as [|m IH]; intros w Hm Hi.
+  - destruct (is_terminal (w_pc w)) eqn:T.
+    + exists 0%nat. split; [exact T|]. intros; lia.
+    + pose proof (step_decreases w Hi T). lia.
+  - destruct (is_terminal (w_pc w)) eqn:T.
+    + exists 0%nat. split; [exact T|]. intros; lia.
+    + pose proof (step_decreases w Hi T) as D.
+      destruct (IH (step w) ltac:(lia) (step_inv _ Hi)) as (k & Hk & Hj).
+      exists (Datatypes.S k). split; [exact Hk|]. intros [|j] Lj; [exact T|]. cbn. apply Hj. lia.
+Qed.
+
+(* what a step can lead to: never "down", never "about to save a block" *)
+Definition benign (p : pc) : bool := match p with PDown | PSaveBlock _ => false | _ => true end.
+
+Lemma enter_replay_last_benign : forall w, benign (enter_replay_last w) = true.
+Proof.
+  intros. unfold enter_replay_last, enter_apply. destruct (load_block _ _); [|reflexivity].
+  destruct (validate_block _ _); reflexivity.
+Qed.
+
+Lemma loop_next_benign : forall w i h f m, benign (loop_next w i h f m) = true.
+Proof.
+  intros. unfold loop_next. destruct (i <=? f).
+  - destruct (load_block _ _); [|reflexivity]. destruct (_ && _); reflexivity.
+  - destruct m; [apply enter_replay_last_benign|]. destruct (_ =? _); reflexivity.
+Qed.
+
+Lemma dispatch_benign : forall w h, benign (dispatch w h) = true.
+Proof.
+  intros. unfold dispatch.
+  repeat match goal with
+         | |- benign (if ?c then _ else _) = true => destruct c
+         | |- benign (match ?c with Some _ => _ | None => _ end) = true => destruct c
+         | |- benign (let '(_, _) := ?c in _) = true => destruct c
+         end; try reflexivity; try apply loop_next_benign; try apply enter_replay_last_benign.
+Qed.
+
+Lemma step_benign : forall w, is_terminal (w_pc w) = false -> benign (w_pc (step w)) = true.
+Proof.
+  intros w T. unfold step. destruct (w_pc w) eqn:E; try discriminate; cbn [w_pc set_pc set_app set_state].
+  - reflexivity.
+  - unfold enter_apply. destruct (validate_block _ _); reflexivity.
+  - unfold next_deliver. destruct (b_txs b); reflexivity.
+  - destruct rest; [reflexivity|]. destruct (app_deliver A (w_app w) t). cbn. unfold next_deliver. destruct rest; reflexivity.
+  - destruct k; reflexivity.
+  - destruct k; reflexivity.
+  - destruct (app_commit (w_app w)). destruct k; try reflexivity. cbn. apply loop_next_benign.
+  - reflexivity.
+  - destruct (_ =? _); cbn; [reflexivity|apply dispatch_benign].
+  - cbn. apply dispatch_benign.
+Qed.
+
+Lemma step_store : forall w, (forall b, w_pc w <> PSaveBlock b) -> w_store (step w) = w_store w.
+Proof.
+  intros w H. unfold step. destruct (w_pc w) eqn:E; try reflexivity.
+  - exfalso. eapply H; reflexivity.
+  - destruct rest; [reflexivity|]. destruct (app_deliver A (w_app w) t). reflexivity.
+  - destruct (app_commit (w_app w)). destruct k; reflexivity.
+  - destruct (_ =? _); reflexivity.
+Qed.
+
+Lemma benign_not_save : forall p, benign p = true -> forall b, p <> PSaveBlock b.
+Proof. intros p H b ->. discriminate. Qed.
+
+(* running a procedure to its end from a non-terminal, benign start *)
+Lemma finish : forall w, Inv w -> benign (w_pc w) = true ->
+  exists k, w_pc (iter k w) = PIdle /\ w_store (iter k w) = w_store w.
+Proof.
+  intros w Hi Hb. destruct (terminates (mu w) w (le_n _) Hi) as (k & Hk & Hj).
+  exists k.
+  assert (G : forall j, (j <= k)%nat -> benign (w_pc (iter j w)) = true /\ w_store (iter j w) = w_store w).
+  { clear Hk. induction j as [|j IH]; intros Lj; [auto|].
+    destruct (IH ltac:(lia)) as (B1 & S1).
+    assert (Ej : iter (Datatypes.S j) w = step (iter j w)).
+    { clear. revert w. induction j as [|j IH]; intros w; [reflexivity|]. cbn in *. apply IH. }
+    rewrite Ej. split.
+    - apply step_benign. apply Hj. lia.
+    - rewrite step_store; [exact S1|]. apply benign_not_save. exact B1. }
+  destruct (G k (le_n _)) as (B & St). split; [|exact St].
+  pose proof (iter_inv k w Hi) as (sh & ah & _ & _ & _ & _ & _ & _ & _ & _ & _ & P).
+  destruct (w_pc (iter k w)); try discriminate; try contradiction. reflexivity.
+Qed.
+
+Lemma handshake_total : forall ops, is_down (w_pc (reach ops)) = true ->
+  exists k, w_pc (run (MRestart :: repeat MStep k) (reach ops)) = PIdle.
+Proof.
+  intros ops D. pose proof (restart_inv _ (reach_inv ops) D) as Hi.
+  assert (B : benign (w_pc (set_pc (reach ops) (start_handshake (reach ops)))) = true).
+  { cbn. unfold start_handshake. destruct (_ =? _); [reflexivity|apply dispatch_benign]. }
+  destruct (finish _ Hi B) as (k & Hk & _). exists k.
+  cbn [run Model.run fold_left]. cbn [do_op Model.do_op]. rewrite D.
+  change (fold_left (Model.do_op A) (repeat MStep k)) with (run (repeat MStep k)).
+  rewrite run_steps. exact Hk.
+Qed.
+
+Lemma recovery_progress : forall ops txs, w_pc (reach ops) = PIdle ->
+  exists k, let w' := run (MCommit txs :: repeat MStep k) (reach ops) in
+    w_pc w' = PIdle /\
+    w_store w' = w_store (reach ops) ++ [make_block (w_state (reach ops)) txs].
+Proof.
+  intros ops txs E. pose proof (commit_inv _ txs (reach_inv ops) E) as Hi.
+  (* finalizeCommit starts with SaveBlock *)
+  assert (Sp : start_commit (reach ops) txs = PSaveBlock (make_block (w_state (reach ops)) txs)).
+  { destruct (reach_inv ops) as (sh & ah & C & Hn & Hst & Hah & Hle & Hacc & Hsn & Hr & Hw & P).
+    rewrite E in P. cbn in P. destruct P as (Id & Jn & Hs & Ha & St).
+    unfold start_commit.
+    assert (F : fits (w_store (reach ops)) (length (w_store (reach ops))) (make_block (w_state (reach ops)) txs)).
+    { rewrite St, ref_state_eq. unfold fits, make_block; cbn. auto. }
+    pose proof (validate_fits _ _ _ F) as V. rewrite <- St in V. rewrite V. cbn [negb].
+    unfold store_height. destruct F as (Fh & _). rewrite Fh.
+    destruct (Z.ltb_spec (Z.of_nat (length (w_store (reach ops)))) (Z.of_nat (length (w_store (reach ops))) + 1)); [reflexivity|lia]. }
+  set (w1 := set_pc (reach ops) (start_commit (reach ops) txs)) in *.
+  pose proof (step_inv _ Hi) as Hi2.
+  assert (B2 : benign (w_pc (step w1)) = true).
+  { apply step_benign. unfold w1. cbn. rewrite Sp. reflexivity. }
+  destruct (finish _ Hi2 B2) as (k & Hk & Hs). exists (Datatypes.S k). cbn zeta.
+  cbn [run Model.run fold_left repeat]. cbn [do_op Model.do_op]. rewrite E. cbn [is_idle].
+  fold w1. change (fold_left (Model.do_op A) (repeat MStep k)) with (run (repeat MStep k)).
+  rewrite run_steps. split; [exact Hk|]. rewrite Hs. unfold step, w1. cbn [w_pc set_pc]. rewrite Sp. reflexivity.
+Qed.
+
+(* ---------------------------------------------------------------- without application restores
+   the application is never behind the saved state: the three cursors are within one *)
+
+Definition is_rollback (o : mop) : bool := match o with MRollback _ => true | _ => false end.
+
+Lemma step_app_ge_state : forall w, Inv w ->
+  s_height (w_state w) <= a_height (w_app w) ->
+  s_height (w_state (step w)) <= a_height (w_app (step w)).
+Proof.
+  intros w (sh & ah & C & Hn & Hst & Hah & Hle & Hacc & Hsn & Hr & Hw & P) G.
+  pose proof (state_height _ _ Hst) as Hsh.
+  unfold step. destruct (w_pc w) eqn:Epc; cbn [pcinv] in P; try exact G; try (cbn; exact G).
+  - (* PDeliver *) destruct rest; [exact G|]. unfold app_deliver. destruct (adeliver A _ _). exact G.
+  - (* PCommit *)
+    assert (EM : exists i, nth_error (w_store w) i = Some b /\ ah = i /\ ctx_ok (length (w_store w)) sh k i /\
+                 a_cur (w_app w) = b_height b).
+    { destruct k; try contradiction; [destruct P as (P & _)|destruct P as (P & _)|];
+        destruct P as (i & h1 & h2 & h3 & h4 & h5 & h6); exists i; auto. }
+    destruct EM as (i & Hb & Hi & Hk & Hc). subst i.
+    pose proof (fits_height _ _ _ C Hb) as Hh.
+    unfold app_commit. rewrite Hc. destruct (Z.ltb_spec 0 (b_height b)); [|lia].
+    destruct k; cbn; lia.
+  - (* PSaveState *)
+    assert (LD : last_done (w_store w) (length (w_store w)) sh ah (w_app w) b codes hash).
+    { destruct k; try contradiction; destruct P as (P & _); exact P. }
+    destruct LD as (Id & Jn & Hs & Ha & Hb & _).
+    pose proof (fits_height _ _ _ C Hb) as Hh. cbn. lia.
+  - (* PInitChain *)
+    destruct (_ =? _); cbn; exact G.
+Qed.
+
+Lemma do_op_app_ge_state : forall w o, Inv w -> is_rollback o = false ->
+  s_height (w_state w) <= a_height (w_app w) ->
+  s_height (w_state (do_op w o)) <= a_height (w_app (do_op w o)).
+Proof.
+  intros w o Hi R G. destruct o; try discriminate; cbn.
+  - destruct (is_idle _); exact G.
+  - destruct (is_down _); exact G.
+  - apply step_app_ge_state; auto.
+  - exact G.
+Qed.
+
+Lemma app_not_behind_state : forall ops,
+  (forall o, In o ops -> is_rollback o = false) ->
+  s_height (w_state (reach ops)) <= a_height (w_app (reach ops)).
+Proof.
+  intros ops H. unfold reach.
+  assert (G : forall l w, Inv w -> (forall o, In o l -> is_rollback o = false) ->
+              s_height (w_state w) <= a_height (w_app w) ->
+              s_height (w_state (run l w)) <= a_height (w_app (run l w))).
+  { induction l as [|o l IH]; intros w Hi Hl Hg; cbn; [exact Hg|].
+    apply IH; [apply do_op_inv; exact Hi|intros; apply Hl; right; auto|].
+    apply do_op_app_ge_state; auto. apply Hl. left; reflexivity. }
+  apply G; [apply inv0|exact H|cbn; lia].
+Qed.
+
+End P.
